@@ -14,7 +14,7 @@ def assemble_prog(prog, root, style=apm.PLAIN, texts=None, wall=120):
     sub = tempfile.mkdtemp(prefix="v-", dir=root)
     try:
         files = refcheck.materialise(prog, texts, sub)
-        o = asm.assemble(files, wall=wall)
+        o = asm.assemble(files, charset=prog.charset, wall=wall)
     finally:
         shutil.rmtree(sub, ignore_errors=True)
     return o, texts
